@@ -882,12 +882,13 @@ def _pins(i, m, k):
 
 def _prove(c, m, name, spec, **kw):
     """c.prove; when a counterexample does not reproduce on the real code (typically: the model sits on a degenerate
-    point where only the *uninterpreted* function values differ), ask the solver whether the negated goal is also
+    point where only the *uninterpreted* function values differ) or the solver gave up (unknown: neither a proof nor a
+    model within the cap), ask the solver whether the negated goal is also
     satisfiable at up to three fixed inputs in generic position and replay those; a reproduced witness there is a
     violation of the same goal (the first, unreproduced, record stays as it is).  The proof direction (unsat over the
     whole box) never uses these points."""
     recs = c.prove(name, spec, **kw)
-    if any(r is not None and r.get('status') == 'unreproduced' for r in (recs or [])):
+    if any(r is not None and r.get('status') in ('unreproduced', 'inconclusive') for r in (recs or [])):
         for k in range(3):
             def spec2(i, o, k=k):
                 asm, atoms = spec(i, o)
